@@ -165,7 +165,7 @@ func (ffif *FlatFileInformationFork) Read(p []byte) (int, error) {
 func (ffif *FlatFileInformationFork) Write(p []byte) (int, error) {
 	nameSize := p[70:72]
 	bs := binary.BigEndian.Uint16(nameSize)
-	total := 72 + bs
+	total := 72 + int(bs) // int arithmetic: a name of more than 65,463 bytes must not wrap the 16-bit sum
 
 	ffif.Platform = [4]byte(p[0:4])
 	ffif.TypeSignature = [4]byte(p[4:8])
@@ -196,7 +196,7 @@ func (ffif *FlatFileInformationFork) Write(p []byte) (int, error) {
 func (ffif *FlatFileInformationFork) UnmarshalBinary(b []byte) error {
 	nameSize := b[70:72]
 	bs := binary.BigEndian.Uint16(nameSize)
-	nameEnd := 72 + bs
+	nameEnd := 72 + int(bs) // int arithmetic: a name of more than 65,463 bytes must not wrap the 16-bit sum
 
 	ffif.Platform = [4]byte(b[0:4])
 	ffif.TypeSignature = [4]byte(b[4:8])
